@@ -24,4 +24,19 @@ CHECKS["C20"] = {
           "functions (pyvc/lemmas.py), hparent[feat] as the parent's data. Not yet under contract: rtdc_copy summary completion, "
           "task_join/export paths reach the file only through write_ndarray (assumed, see C01/C02).",
   "technique": "contract-based deductive verification: AST-generated VCs over an axiomatised HDF5/numpy model with ghost summary state, discharged by z3 (cvc5 fallback); bounded replay only when a function leaves the accepted subset"}
+CHECKS["C01"] = {
+  "text": "Proof of the representation invariant 'file == what was written' per writer operation over an axiomatised HDF5 object "
+          "model: write_ndarray (scalar in C20, n-D chunk loop with inductive invariant: content' == content ++ data for every chunk "
+          "size and event count), get_best_nd_chunks, write_image_grayscale (uint8, bool mask -> uint8*255, H5MaskEvent raw), "
+          "store_feature for scalar/uint64/index/image/mask/qpi/trace in append and replace mode incl. frame (no other feature touched), "
+          "write_ragged (numbering continues, cached size == real size, fresh writer on existing file), write_text (every line stored "
+          "untruncated, for all line lengths), rectify_metadata (event count, roi size, samples per event, channel count), and the "
+          "readers H5ContourEvent/H5MaskEvent/H5ScalarEvent.__getitem__.",
+  "note": "Trusted: the h5py object model (H-CREATE, H-RESIZE, H-SLICE, H-ATTR, H-FIXEDSTR), n-D events and text lines as opaque "
+          "payloads with uninterpreted elementwise conversions (N-ELEMWISE, S-UTF8, N-MASK-ROUNDTRIP), dtype conversion on write as "
+          "identity on values, dfn.feature_exists/scalar_feature_exists called natively on concrete names. Not under contract yet: "
+          "store_table, store_metadata (C11), store_feature for plugin/temporary non-scalar features and list/2-D single-event inputs, "
+          "writer __init__/__exit__, H5TraceEvent, H5Logs/H5Tables readers. Induction over sequences of calls is the data-structure "
+          "meta-rule (each operation preserves the invariant).",
+  "technique": "contract-based deductive verification: AST-generated VCs (loop invariants, callee contracts) over an axiomatised HDF5/numpy model, discharged by z3 (cvc5 fallback)"}
 NOT_APPLICABLE = {}
